@@ -163,6 +163,7 @@ pub fn seq_op(a: SeqAlphabet) -> BoxedStrategy<Op> {
         (2, s().prop_map(|rx| Op::RecvView { rx }).boxed()),
         (2, (s(), 0u8..4, any::<u8>()).prop_map(|(rx, max, variant)| Op::TryIter { rx, max, variant }).boxed()),
         (1, (s(), 0u8..3, any::<u8>()).prop_map(|(rx, max, variant)| Op::IntoIter { rx, max, variant }).boxed()),
+        (2, (s(), s(), 0u8..3, any::<u8>()).prop_map(|(rx, tx, max, variant)| Op::TryIterAcross { rx, tx, max, variant }).boxed()),
         (2, s().prop_map(|tx| Op::CloneTx { tx }).boxed()),
         (2, s().prop_map(|tx| Op::DropTx { tx }).boxed()),
         (1, s().prop_map(|tx| Op::UnsubTx { tx }).boxed()),
